@@ -93,6 +93,7 @@ pub fn get(id: &str, thorough: bool) -> Option<PropDef> {
     let mut d = match id {
         "C01" => {
             let mut p = Profile::base("C01");
+            p.w_stopt = 1;
             p.caps = vec![1, 1, 2, 2, 3, 4, 8, 32, 0];
             p.clients = (2, 6);
             p.ops = (1, 10);
@@ -124,6 +125,7 @@ pub fn get(id: &str, thorough: bool) -> Option<PropDef> {
         }
         "C02" => {
             let mut p = Profile::base("C02");
+            p.w_stopt = 1;
             p.caps = vec![1, 1, 1, 2, 2, 3];
             p.clients = (3, 6);
             p.ops = (1, 8);
@@ -176,6 +178,7 @@ pub fn get(id: &str, thorough: bool) -> Option<PropDef> {
         }
         "C04" | "C05" => {
             let mut p = Profile::base(if id == "C04" { "C04" } else { "C05" });
+            p.w_stopt = 1;
             p.clients = (1, 5);
             p.ops = (1, 8);
             p.w_stop = 4;
@@ -223,6 +226,7 @@ pub fn get(id: &str, thorough: bool) -> Option<PropDef> {
         }
         "C06" => {
             let mut p = Profile::base("C06");
+            p.w_stopt = 1;
             p.clients = (2, 6);
             p.ops = (2, 10);
             p.w_kill = 3;
@@ -252,6 +256,7 @@ pub fn get(id: &str, thorough: bool) -> Option<PropDef> {
         }
         "C07" => {
             let mut p = Profile::base("C07");
+            p.w_stopt = 2;
             p.clients = (1, 4);
             p.ops = (2, 12);
             p.w_send = 10;
@@ -331,6 +336,7 @@ pub fn get(id: &str, thorough: bool) -> Option<PropDef> {
         }
         "C09" => {
             let mut p = Profile::base("C09");
+            p.w_stopt = 2;
             p.caps = vec![1, 2, 3, 4, 5, 8, 16, 32, 0];
             p.clients = (1, 8);
             p.ops = (2, 12);
@@ -528,6 +534,10 @@ pub fn get(id: &str, thorough: bool) -> Option<PropDef> {
             ring.p_hook_peer = (1, 5);
             ring.clients = (1, 3);
             if id == "C14" {
+                // C14's oracle does not look at the graph; sampling it would only make the run
+                // quadratically slow on a tree that leaks edges (which is C15's business to report)
+                p.sampler = false;
+                ring.sampler = false;
                 PropDef {
                     id: "C14",
                     profiles: vec![p, ring],
